@@ -59,6 +59,12 @@ func parseUint(b []byte) (int, error) {
 			return 0, errInvalidUint
 		}
 
+		// A value that does not fit is not a length anybody can honour, and
+		// letting it wrap would make it compare equal to something it is not.
+		if n > (maxInt-int(c-'0'))/10 {
+			return 0, errInvalidUint
+		}
+
 		n = n*10 + int(c-'0')
 	}
 
@@ -66,6 +72,8 @@ func parseUint(b []byte) (int, error) {
 }
 
 var errInvalidUint = errors.New("invalid unsigned integer")
+
+const maxInt = int(^uint(0) >> 1)
 
 // isConnectionSpecific reports whether the (lowercase) header name is a
 // connection-specific field forbidden in HTTP/2.
